@@ -8,6 +8,8 @@ dirs = [os.path.abspath(d) for d in sys.argv[1:]] or sorted(glob.glob("/verif/se
 def one(d):
     mp = os.path.join(d, "meta.json")
     old = json.load(open(mp))
+    if old.get("obsolete_since"):
+        return [f"{os.path.basename(d)} skipped: no longer a breaking change since {old['obsolete_since']}"]
     checks = list(old["checks"])
     r = subprocess.run([sys.executable, "/verif/tools/seed_eval.py", d, *checks, "--no-suite", "--meta", f"{old['breaks_property']}|{old['needs_to_manifest']}"], capture_output=True, text=True)
     new = json.load(open(mp))
